@@ -71,7 +71,7 @@ def big_specs(ctx, n):
         nw = rng.choice([65, 129, 257, 513])
         nc = rng.choice([33, 65, 129])
         T = rng.choice([3, 4, 5])
-        beta = rng.choice([F(1, 2), F(3, 4), F(9, 10), F(19, 20)])
+        beta = rng.choice([F(1, 2), F(3, 4), F(7, 8), F(15, 16)])      # dyadic: the geometric sum stays small for TLC
         kind = i % 4
         if kind == 0:
             m = big_model(rng, nw, nc, T, False, beta)
